@@ -2,6 +2,7 @@ package c03
 
 import (
 	"bufio"
+	"bytes"
 	"crypto/sha256"
 	"database/sql"
 	"encoding/json"
@@ -17,6 +18,9 @@ import (
 	"sync"
 	"syscall"
 	"time"
+
+	"github.com/benbjohnson/litestream"
+	"github.com/pierrec/lz4/v4"
 
 	"verif/harness/internal/sq"
 	"verif/harness/internal/vf"
@@ -38,6 +42,9 @@ type Launch struct {
 	Mode  Mode
 	KillN int
 	Log   string // ptsup / strace log file
+	// Inject, in Strace mode, is an strace fault-injection expression for the whole victim
+	// process, e.g. "fsync,fdatasync:error=EIO" (every flush fails with EIO)
+	Inject string
 }
 
 // StraceSet is the syscall set traced for C11 (E-TRACE).
@@ -107,7 +114,11 @@ func StartVictim(cfg VictimCfg, l Launch) (p *Proc, alive bool, err error) {
 	case Kill:
 		args = append([]string{PtsupPath(), "kill", cfg.Dir, l.Log, strconv.Itoa(l.KillN), "--"}, vargs...)
 	case Strace:
-		args = append([]string{"strace", "-f", "-y", "-ttt", "-s", "96", "-e", "trace=" + StraceSet, "-o", l.Log, "--"}, vargs...)
+		args = []string{"strace", "-f", "-y", "-ttt", "-s", "96", "-e", "trace=" + StraceSet}
+		if l.Inject != "" {
+			args = append(args, "-e", "inject="+l.Inject)
+		}
+		args = append(append(args, "-o", l.Log, "--"), vargs...)
 	}
 	cmd := exec.Command(args[0], args[1:]...)
 	cmd.SysProcAttr = &syscall.SysProcAttr{Setpgid: true}
@@ -429,6 +440,9 @@ type World struct {
 	K    int64
 	Logf func(string, ...any)
 
+	// Inject is set by the step "inject <expr>" and consumed by the next traced start
+	// (see Launch.Inject).
+	Inject string
 	// LaunchFor decides how the victim of a phase is started.
 	LaunchFor func(phase int, traced bool) Launch
 	// OnReply is called after every victim reply (C11 uses it for nothing; kept for evidence).
@@ -658,7 +672,7 @@ func (w *World) Run(steps []Step, from int) (int, error) {
 			if serr != nil {
 				return i, serr
 			}
-			if f := strings.Fields(line); f[0] == "restore" && len(f) >= 2 {
+			if f := strings.Fields(line); f[0] == "restore" && len(f) >= 2 && kv(f[2:], "rep", "") == "" {
 				exp := w.LastAck()
 				if t := kv(f[2:], "txid", ""); t != "" {
 					exp = nil
@@ -755,6 +769,21 @@ func (w *World) Run(steps []Step, from int) (int, error) {
 				return i, ErrVictimGone
 			}
 			w.Logf("MaxSyncWALBytes = %d (%d x %d bytes per transaction) -> %s", n, k, w.LastWALGrowth, reply)
+		case "inject":
+			w.Inject = s.Arg
+		case "plantv3":
+			// plantv3 <dir> <snap|wal>: a v0.3.x replica (one generation) is written from the
+			// application's current database: snapshots/00000000.snapshot.lz4 = the checkpointed
+			// database file; with "wal", further application writes and wal/00000000_00000000.wal.lz4
+			// = the complete WAL that follows the snapshot
+			f := strings.Fields(s.Arg)
+			if len(f) != 2 || w.P != nil {
+				return i, fmt.Errorf("plantv3 <dir> <snap|wal>, without a running victim")
+			}
+			if err := w.plantV3(filepath.Join(w.VC.Dir, f[0]), f[1] == "wal"); err != nil {
+				return i, fmt.Errorf("plantv3: %w", err)
+			}
+			w.Logf("v0.3.x replica planted in %s (%s)", f[0], f[1])
 		case "rmmeta":
 			if w.P != nil {
 				return i, fmt.Errorf("rmmeta with a running victim")
@@ -921,4 +950,46 @@ func NewWorldFromPrelude(snap, root, work string, cfg Config, seed int64, logf f
 	}
 	logf("state before the traced phase taken from the prelude snapshot (k=%d, %d acknowledgements)", m.K, len(m.Acks))
 	return w, nil
+}
+
+// plantV3 writes a one-generation v0.3.x replica of the application's database.
+func (w *World) plantV3(rep string, withWAL bool) error {
+	var a, b, c int
+	if err := w.App.QueryRow(`PRAGMA wal_checkpoint(TRUNCATE)`).Scan(&a, &b, &c); err != nil || a != 0 {
+		return fmt.Errorf("checkpoint before snapshot: busy=%d err=%v", a, err)
+	}
+	dbb, err := os.ReadFile(w.VC.DBPath())
+	if err != nil {
+		return err
+	}
+	gen := filepath.Join(rep, "generations", "0123456789abcdef")
+	if err := os.MkdirAll(filepath.Join(gen, "snapshots"), 0o755); err != nil {
+		return err
+	}
+	if err := os.MkdirAll(filepath.Join(gen, "wal"), 0o755); err != nil {
+		return err
+	}
+	lz := func(p []byte) []byte {
+		var buf bytes.Buffer
+		zw := lz4.NewWriter(&buf)
+		_, _ = zw.Write(p)
+		_ = zw.Close()
+		return buf.Bytes()
+	}
+	if err := os.WriteFile(filepath.Join(gen, "snapshots", litestream.FormatSnapshotFilenameV3(0)), lz(dbb), 0o644); err != nil {
+		return err
+	}
+	if !withWAL {
+		return nil
+	}
+	for _, k := range []string{"small", "update", "multi"} {
+		if err := w.AppWrite(k); err != nil {
+			return err
+		}
+	}
+	wal, err := os.ReadFile(w.VC.DBPath() + "-wal")
+	if err != nil {
+		return err
+	}
+	return os.WriteFile(filepath.Join(gen, "wal", litestream.FormatWALSegmentFilenameV3(0, 0)), lz(wal), 0o644)
 }
